@@ -235,11 +235,279 @@ def BwdChain : List (Node × Relay) → Nat → Nat → Prop
 def exR1 : Node := { Node.init 1 with relays := [(500, ⟨600, ⟨2, 2, 71⟩, .fwd, 1⟩), (600, ⟨500, ⟨9, 9, 71⟩, .bwd, 1⟩),
                                                  (501, ⟨601, ⟨2, 2, 81⟩, .fwd, 1⟩), (601, ⟨501, ⟨8, 8, 81⟩, .bwd, 1⟩)] }
 def exR2 : Node := { Node.init 2 with relays := [(600, ⟨700, ⟨3, 3, 72⟩, .fwd, 1⟩), (700, ⟨600, ⟨1, 1, 72⟩, .bwd, 1⟩)],
-                                      exits := [(601, ⟨⟨1, 1, 82⟩, true⟩)], created := [600, 601] }
-def exX : Node := { Node.init 3 with exits := [(700, ⟨⟨2, 2, 73⟩, true⟩)], created := [700] }
+                                      exits := [(601, ⟨⟨1, 1, 82⟩, 3, []⟩)], created := [600, 601] }
+def exX : Node := { Node.init 3 with exits := [(700, ⟨⟨2, 2, 73⟩, 3, []⟩)], created := [700] }
 def exO : Node := { Node.init 9 with circuits := [(500, ⟨3, [⟨1, 1, 71⟩, ⟨2, 0, 72⟩, ⟨3, 0, 73⟩], none, 0, 3⟩)] }
 
 /-- an originator (node 9) whose circuit 500 has ONE verified hop (key 71) and is being extended to a second -/
 def exO1 : Node := { Node.init 9 with circuits := [(500, ⟨3, [⟨1, 1, 71⟩], some ⟨2, 0, 99⟩, 5, 2⟩)] }
+
+end Ipv8.C05
+
+namespace Ipv8.C05
+
+/-! ### the exit sockets' queues: every parked packet sits in the queue of the socket whose id its cell carried -/
+
+/-- ghost invariant: an item parked in the queue of exit socket `cid` arrived in a cell labelled `cid` -/
+def QueueOwn (n : Node) : Prop := ∀ p ∈ n.exits, ∀ q ∈ p.2.queue, q.1 = p.1
+
+theorem mem_set {α : Type} (l : List (Nat × α)) (k : Nat) (v : α) (p : Nat × α) :
+    p ∈ set l k v → p = (k, v) ∨ p ∈ l := by
+  induction l with
+  | nil => intro h; simp [set] at h; exact Or.inl h
+  | cons hd t ih =>
+    obtain ⟨k', v'⟩ := hd
+    intro h
+    by_cases hk : k' = k
+    · simp [set, hk] at h
+      cases h with
+      | inl h => exact Or.inl h
+      | inr h => exact Or.inr (List.mem_cons_of_mem _ h)
+    · simp [set, hk] at h
+      cases h with
+      | inl h => exact Or.inr (by rw [h]; exact List.mem_cons_self)
+      | inr h =>
+        cases ih h with
+        | inl h' => exact Or.inl h'
+        | inr h' => exact Or.inr (List.mem_cons_of_mem _ h')
+
+theorem mem_del {α : Type} (l : List (Nat × α)) (k : Nat) (p : Nat × α) : p ∈ del l k → p ∈ l := by
+  induction l with
+  | nil => intro h; simp [del] at h
+  | cons hd t ih =>
+    obtain ⟨k', v'⟩ := hd
+    intro h
+    by_cases hk : k' = k
+    · simp [del, hk] at h
+      exact List.mem_cons_of_mem _ (ih h)
+    · simp [del, hk] at h
+      cases h with
+      | inl h => rw [h]; exact List.mem_cons_self
+      | inr h => exact List.mem_cons_of_mem _ (ih h)
+
+theorem mem_of_get {α : Type} (l : List (Nat × α)) (k : Nat) (v : α) : get l k = some v → (k, v) ∈ l := by
+  induction l with
+  | nil => intro h; simp [get] at h
+  | cons hd t ih =>
+    obtain ⟨k', v'⟩ := hd
+    intro h
+    by_cases hk : k' = k
+    · simp [get, hk] at h
+      subst hk; subst h
+      exact List.mem_cons_self
+    · simp [get, hk] at h
+      exact List.mem_cons_of_mem _ (ih h)
+
+theorem mem_pushQ (q : List (Nat × Nat × Nat)) (x y : Nat × Nat × Nat) : y ∈ pushQ q x → y = x ∨ y ∈ q := by
+  unfold pushQ
+  split
+  · intro h
+    simp at h
+    cases h with
+    | inl h => exact Or.inr (List.mem_of_mem_tail h)
+    | inr h => exact Or.inl h
+  · intro h
+    simp at h
+    cases h with
+    | inl h => exact Or.inr h
+    | inr h => exact Or.inl h
+
+theorem qo_same {n n' : Node} (h : n'.exits = n.exits) (hq : QueueOwn n) : QueueOwn n' := by
+  unfold QueueOwn; rw [h]; exact hq
+
+theorem qo_del {n n' : Node} (k : Nat) (h : n'.exits = del n.exits k) (hq : QueueOwn n) : QueueOwn n' := by
+  unfold QueueOwn; rw [h]
+  intro p hp
+  exact hq p (mem_del _ _ _ hp)
+
+theorem qo_set {n n' : Node} (k : Nat) (e : ExitE) (h : n'.exits = set n.exits k e)
+    (he : ∀ q ∈ e.queue, q.1 = k) (hq : QueueOwn n) : QueueOwn n' := by
+  unfold QueueOwn; rw [h]
+  intro p hp
+  cases mem_set _ _ _ _ hp with
+  | inl h1 => subst h1; exact he
+  | inr h1 => exact hq p h1
+
+section
+variable {B : Type} (A : Aead B)
+
+theorem sendCell_exits (n : Node) (dst : Nat) (c : Cell B) (x : Bool) : (sendCell A n dst c x).1.exits = n.exits := by
+  unfold sendCell
+  cases get n.circuits c.cid <;> (dsimp only; split <;> rfl)
+
+theorem sendMsg_exits (n : Node) (dst cid : Nat) (m : Msg) : (sendMsg A n dst cid m).1.exits = n.exits :=
+  sendCell_exits A n dst _ _
+
+theorem exitData_qo (n : Node) (src cid dest tag : Nat) (hq : QueueOwn n) :
+    QueueOwn (exitData (B := B) n src cid dest tag).1 := by
+  unfold exitData
+  cases he : get n.exits cid with
+  | none => exact hq
+  | some e =>
+    have hown : ∀ q ∈ pushQ e.queue (cid, dest, tag), q.1 = cid := by
+      intro q hqm
+      cases mem_pushQ _ _ _ hqm with
+      | inl h => rw [h]
+      | inr h => exact hq (cid, e) (mem_of_get _ _ _ he) q h
+    dsimp only
+    split
+    · split
+      · exact qo_set cid _ rfl hown hq
+      · exact hq
+    · split
+      · exact qo_set cid _ rfl hown hq
+      · exact hq
+
+theorem openStep_qo (n : Node) (cid : Nat) (hq : QueueOwn n) : QueueOwn (openStep (B := B) n cid).1 := by
+  unfold openStep
+  cases he : get n.exits cid with
+  | none => exact hq
+  | some e =>
+    dsimp only
+    split
+    · exact qo_set cid _ rfl (fun q hqm => hq (cid, e) (mem_of_get _ _ _ he) q hqm) hq
+    · split
+      · exact qo_set cid _ rfl (by intro q hqm; simp at hqm) hq
+      · exact hq
+
+theorem onData_qo (n : Node) (src cid dest org tag : Nat) (hq : QueueOwn n) :
+    QueueOwn (onData (B := B) n src cid dest org tag).1 := by
+  have key : ∀ b : Bool, QueueOwn ((if b = true then (n, [Out.rawIn cid org tag])
+      else if dest = 0 then (n, []) else exitData n src cid dest tag : Node × List (Out B))).1 := by
+    intro b
+    cases b
+    · by_cases hd : dest = 0
+      · simp only [Bool.false_eq_true, if_false, hd, if_true]; exact hq
+      · simp only [Bool.false_eq_true, if_false, hd]; exact exitData_qo n src cid dest tag hq
+    · simp only [if_true]; exact hq
+  unfold onData
+  exact key _
+
+theorem onCreate_qo (n : Node) (src cid ident pk dh : Nat) (hq : QueueOwn n) :
+    QueueOwn (onCreate A n src cid ident pk dh).1 := by
+  unfold onCreate
+  split
+  · exact hq
+  · split
+    · exact hq
+    · split
+      · exact hq
+      · dsimp only
+        refine qo_set cid ⟨⟨pk, src, n.freshKey⟩, 0, []⟩ ?_ (by intro q hqm; simp at hqm) hq
+        rw [sendMsg_exits]
+
+theorem oursCreated_exits (n : Node) (cid : Nat) (circ : Circ) (key authPk dhRef : Nat) (ch : Choice) :
+    (oursCreated A n cid circ key authPk dhRef ch).1.exits = n.exits := by
+  unfold oursCreated
+  repeat' (first
+    | rfl
+    | (rw [sendMsg_exits])
+    | split
+    | dsimp only)
+
+theorem onCreated_qo (n : Node) (cid ident key authPk dhRef : Nat) (ch : Choice) (hq : QueueOwn n) :
+    QueueOwn (onCreated A n cid ident key authPk dhRef ch).1 := by
+  unfold onCreated
+  split
+  · dsimp only
+    split
+    · exact qo_same rfl hq
+    · exact qo_del _ (by dsimp only; rw [sendMsg_exits]) hq
+  · split
+    · exact hq
+    · split
+      · exact qo_same (oursCreated_exits A _ _ _ _ _ _ _) hq
+      · exact hq
+
+theorem onExtend_exits (n : Node) (cid ident dh : Nat) (ch : Choice) :
+    (onExtend A n cid ident dh ch).1.exits = n.exits := by
+  unfold onExtend
+  repeat' (first
+    | rfl
+    | (rw [sendMsg_exits])
+    | split
+    | dsimp only)
+
+theorem onExtended_exits (n : Node) (cid ident key authPk dhRef : Nat) (ch : Choice) :
+    (onExtended A n cid ident key authPk dhRef ch).1.exits = n.exits := by
+  unfold onExtended
+  repeat' (first
+    | rfl
+    | exact oursCreated_exits A _ _ _ _ _ _ _
+    | split)
+
+theorem onPing_exits (n : Node) (src cid ident : Nat) : (onPing A n src cid ident).1.exits = n.exits := by
+  unfold onPing
+  split
+  · exact sendMsg_exits A _ _ _ _
+  · rfl
+
+theorem relayCell_exits (n : Node) (c : Cell B) (nx : Relay) : (relayCell A n c nx).1.exits = n.exits := by
+  unfold relayCell
+  repeat' (first | rfl | split | dsimp only)
+
+theorem processCell_qo (n : Node) (src : Nat) (c : Cell B) (ch : Choice) (hq : QueueOwn n) :
+    QueueOwn (processCell A n src c ch).1 := by
+  unfold processCell
+  cases hr : get n.relays c.cid with
+  | some nx => exact qo_same (relayCell_exits A _ _ _) hq
+  | none =>
+    dsimp only
+    cases hin : inCrypto A n c with
+    | none => exact hq
+    | some b =>
+      dsimp only
+      cases hp : A.parse b with
+      | none => exact hq
+      | some m =>
+        dsimp only
+        split
+        · exact hq
+        · split
+          · exact hq
+          · cases m with
+            | data dest org tag => exact onData_qo n src c.cid dest org tag hq
+            | create ident pk dh => exact onCreate_qo A n src c.cid ident pk dh hq
+            | created ident key authPk dhRef => exact onCreated_qo A n c.cid ident key authPk dhRef ch hq
+            | extend ident pk dh => exact qo_same (onExtend_exits A _ _ _ _ _) hq
+            | extended ident key authPk dhRef => exact qo_same (onExtended_exits A _ _ _ _ _ _ _) hq
+            | ping ident => exact qo_same (onPing_exits A _ _ _ _) hq
+            | pong ident => exact hq
+            | other mid => exact hq
+
+theorem onDestroy_qo (n : Node) (signer cid : Nat) (ok : Bool) (hq : QueueOwn n) :
+    QueueOwn (onDestroy (B := B) n signer cid ok).1 := by
+  unfold onDestroy
+  split
+  · exact hq
+  · split
+    · exact qo_same rfl hq
+    · unfold destroyLocal
+      split
+      · split
+        · exact qo_del _ rfl hq
+        · unfold destroyCircuit
+          repeat' (first | exact hq | exact qo_same rfl hq | split)
+      · unfold destroyCircuit
+        repeat' (first | exact hq | exact qo_same rfl hq | split)
+
+theorem pingAll_exits (n : Node) (l : List (Nat × Circ)) : (pingAll A n l).1.exits = n.exits := by
+  induction l generalizing n with
+  | nil => rfl
+  | cons p t ih =>
+    obtain ⟨cid, c⟩ := p
+    unfold pingAll
+    split
+    · dsimp only
+      rw [ih, sendMsg_exits]
+    · exact ih n
+
+end
+/-- an exit node with two sockets that are both still opening (IPv4 transport done, IPv6 pending), each holding
+    parked packets of its own circuit -/
+def exQ : Node := { Node.init 3 with exits := [(700, ⟨⟨2, 2, 73⟩, 2, [(700, 55, 1), (700, 56, 2)]⟩),
+                                                (701, ⟨⟨1, 1, 74⟩, 2, [(701, 57, 3)]⟩)] }
+
+instance (n : Node) : Decidable (QueueOwn n) := by unfold QueueOwn; exact inferInstance
 
 end Ipv8.C05
